@@ -797,6 +797,7 @@ spif_linked_list_insert_at(spif_linked_list_t self, spif_obj_t obj, spif_listidx
 static spif_iterator_t
 spif_linked_list_iterator(spif_linked_list_t self)
 {
+    ASSERT_RVAL(!SPIF_LIST_ISNULL(self), (spif_iterator_t) NULL);
     return (spif_iterator_t) spif_linked_list_iterator_new(self);
 }
 
